@@ -81,6 +81,9 @@ def extra(res, facts, entries, protos):
                 res.inst("C06.R3", "%s: PAE::parse(&[%d pieces])" % (M.short(bid), len(p["components"])))
             else:
                 res.violate("C06.R3", bid, "PAE argument is not an array literal", "PreAuthenticationEncoding::parse must receive an array literal of pieces", file=M.view(facts, b).file(), line=p["ln"])
+    # R6: the encoding under the tag is injective in the piece list (an empty footer next to assertion A is not the footer A next to an empty assertion)
+    from . import c08_fpai
+    c08_fpai.pae(res, facts, rule="C06.R6")
     # gated setters: set_implicit_assertion exists only in impls bounded by ImplicitAssertionCapable
     for b in facts.bodies.values():
         if b["kind"] == "AssocFn" and b.get("name") == "set_implicit_assertion":
@@ -158,9 +161,9 @@ def _paths_to(t, target, path=None):
 def run(tier):
     return _proto.run_rules(
         "C06", LEVEL, RULES,
-        {"C06.R1": 16, "C06.R2": 5, "C06.R3": 16, "C06.R4": 13 + 5, "C06.R5": 3},
+        {"C06.R1": 16, "C06.R2": 5, "C06.R3": 16, "C06.R4": 13 + 5, "C06.R5": 3, "C06.R6": 2},
         "provenance terms and field-read sets: the assertion is the last PAE component of the 8 v3/v4 core entry points (caller's value on consumer sides, builder's own on producer sides, absent == empty through unwrap_or_default); "
         "dataflow non-interference: on producer sides it is read once and reaches the token text only below the fixed-length tag / signature, format_token reads only header and footer; "
         "the ImplicitAssertion carrier is the identity on content; wrappers and setters forward it; set_implicit_assertion exists only under ImplicitAssertionCapable",
-        ["MAC / signature strength: another assertion yields another tag", "PreAuthenticationEncoding::parse length-prefixes each piece (pinned by the official v4 vectors in the existing suite; see C08.R7 for its own check)"],
+        ["MAC / signature strength: another assertion yields another tag", "PreAuthenticationEncoding::parse / le64 are evaluated abstractly (R6, shared with C08.R7): LE64(count) || (LE64(len) || piece)* - an injective framing"],
         extra, "that any other assertion fails authentication (MAC / signature strength)")
